@@ -285,6 +285,9 @@ func (pConn *PFCPConn) handleSessionModificationRequest(msg message.Message) (me
 		addQERs = append(addQERs, q)
 	}
 
+	// F-TEIDs chosen for PDRs that this request moves to another tunnel endpoint
+	var replacedTEIDs []uint32
+
 	for _, uPDR := range smreq.UpdatePDR {
 		var (
 			p   pdr
@@ -296,6 +299,19 @@ func (pConn *PFCPConn) handleSessionModificationRequest(msg message.Message) (me
 		}
 
 		p.fseidIP = fseidIP
+
+		for _, old := range session.pdrs {
+			if old.pdrID != p.pdrID || !old.UPAllocateFteid {
+				continue
+			}
+
+			if p.tunnelTEID == old.tunnelTEID {
+				// the rule keeps the F-TEID that was chosen for it: it stays the session's to release
+				p.UPAllocateFteid = true
+			} else {
+				replacedTEIDs = append(replacedTEIDs, old.tunnelTEID)
+			}
+		}
 
 		err = session.UpdatePDR(p)
 		if err != nil {
@@ -438,6 +454,10 @@ func (pConn *PFCPConn) handleSessionModificationRequest(msg message.Message) (me
 		if p.UPAllocateFteid {
 			upf.fteidGenerator.FreeID(p.tunnelTEID)
 		}
+	}
+
+	for _, teid := range replacedTEIDs {
+		upf.fteidGenerator.FreeID(teid)
 	}
 
 	err := pConn.store.PutSession(session)
